@@ -110,3 +110,52 @@ RENAMES = [
  ("B.rename.dedup_seen", ["C02"], "core/src/props.rs", r"\bseen\b", "visited", 270, 310),
  ("B.rename.batcher_current_batch", ["C06", "C07", "C08"], "batcher/src/lib.rs", r"\bcurrent_batch\b", "cur", 340, 480),
 ]
+
+MULTI += [('B.retry_saturating_add',
+  ['C08', 'C06'],
+  'batcher/src/lib.rs',
+  [('        self.current += 1;\n        self.current <= self.max',
+    '        self.current = self.current.saturating_add(1);\n        self.current <= self.max')]),
+ ('B.delay_saturating',
+  ['C08'],
+  'batcher/src/lib.rs',
+  [('        self.current = cmp::min(self.current * 2 + self.step, self.max);',
+    '        self.current = cmp::min(self.current.saturating_mul(2).saturating_add(self.step), self.max);')]),
+ ('B.is_sampled_ne_zero', ['C18'], 'traceparent/src/lib.rs', [('        self.0 & Self::SAMPLED.0 == 1', '        (self.0 & Self::SAMPLED.0) != 0')]),
+ ('B.retry_max_ge',
+  ['C08'],
+  'batcher/src/lib.rs',
+  [('        self.current += 1;\n        self.current <= self.max', '        self.current += 1;\n        self.max >= self.current')]),
+ ('B.send_cap_cmp_flipped',
+  ['C09', 'C06'],
+  'batcher/src/lib.rs',
+  [('        if state.next_batch.channel.len() >= self.max_capacity {', '        if self.max_capacity <= state.next_batch.channel.len() {')]),
+ ('B.timer_extent_if_let',
+  ['C05'],
+  'src/timer.rs',
+  [('        match (self.start, end) {\n            (Some(start), Some(end)) => Some(Extent::range(start..end)),\n            _ => None,\n        }',
+    '        if let (Some(start), Some(end)) = (self.start, end) {\n'
+    '            Some(Extent::range(start..end))\n'
+    '        } else {\n'
+    '            None\n'
+    '        }')]),
+ ('B.min_level_cmp_method',
+  ['C17'],
+  'src/level.rs',
+  [('            .unwrap_or(&L::default())\n            >= &self.min', '            .unwrap_or(&L::default())\n            .ge(&&self.min)')]),
+ ('B.file_retention_loop_form',
+  ['C11'],
+  'emitter/file/src/lib.rs',
+  [('        while self.file_set.len() >= max_files {\n'
+    '            // With `max_files` of 0 (a configured maximum of 1) the set may already be empty\n'
+    '            let Some(file_name) = self.file_set.pop() else {\n'
+    '                break;\n'
+    '            };',
+    '        loop {\n'
+    '            if self.file_set.len() < max_files {\n'
+    '                break;\n'
+    '            }\n'
+    '            // With `max_files` of 0 (a configured maximum of 1) the set may already be empty\n'
+    '            let Some(file_name) = self.file_set.pop() else {\n'
+    '                break;\n'
+    '            };')])]
